@@ -7,8 +7,8 @@ from harness.common import cz, cq, cbool, clist, ctup, copt, cres, call_res, imp
 ID = "C14"
 GEN = []
 PROPS = "Props/C14.v"
-COQ_CHECK = ("Model.C14", "check")
-COQ_FALLBACK = ("Model.C14", "spec_ok")
+COQ_CHECK = ("Model.C14k", "check")
+COQ_FALLBACK = ("Model.C14k", "spec_ok")
 COQ_IMPORTS = ""
 SHARD = 400
 RULE = ("exhaustive enumeration (see exhaustive_subspace) of (input shape, target shape) pairs in every parity "
@@ -154,6 +154,11 @@ def gen_inputs(tier, rng):
             for mk in all_masks(h, w):
                 i += 1
                 yield {"op": "zoom_region", "m": mk}
+                if not all(all(r) for r in mk) or i % 8 == 0:
+                    yield {"op": "mask_zoom", "m": mk, "g": list(GEOMS[i % len(GEOMS)])}
+                    yield {"op": "zoom_geo", "m": mk, "v": values(h, w, rng), "g": list(GEOMS[(i // 3) % len(GEOMS)]),
+                           "b": [0, 1, -1, 2, -2, 0, -3][i % 7], "var": VARS[i % 6]}
+                    if i % 3 == 0: yield {"op": "zoom", "a": [values(h, w, rng, wide=True), mk], "b": -1 - (i // 3) % 2, "var": VARS[i % 6], "sc": SCS[i % 7]}
                 for b in ((0, 1, 2) if big and h * w <= 8 else (i % 3,)):
                     yield {"op": "zoom", "a": [values(h, w, rng, wide=True), mk], "b": b, "var": VARS[i % 6], "sc": SCS[i % 7]}
     yield {"op": "zoom", "a": [values(2, 2, rng), rmask(2, 2, rng, 0.5)], "b": -1}
@@ -195,7 +200,8 @@ def gen_inputs(tier, rng):
             elif c < 0.54: st.append(["trim", [rng.choice(ODD[:3]), rng.choice(ODD[:3])]])
             elif c < 0.62: st.append(["padtrim", [rng.choice(ODD), rng.choice(ODD)], rng.randint(0, 1)])
             elif c < 0.70: st.append(["enlshr", [h + rng.randint(0, 3), w + rng.randint(0, 3)], rng.randint(0, 1)])
-            elif c < 0.82 and not all(all(r) for r in mk): st.append(["zoom", rng.randint(0, 2)])
+            elif c < 0.78 and not all(all(r) for r in mk): st.append(["zoom", rng.randint(-1, 2)])
+            elif c < 0.84 and not all(all(r) for r in mk): st.append(["zoomgeo", rng.randint(-1, 2)])
             else: st.append(["edit", rng.randrange(h), rng.randrange(w), rng.randint(11, 99)])
         if st[0][0] == "edit": st.reverse()
         if st[0][0] == "edit": st.insert(0, ["resize", [h + 1, w], 0])
@@ -208,7 +214,8 @@ def gen_inputs(tier, rng):
         st = []
         for _ in range(rng.randint(5, 8)):
             c = rng.random()
-            if c < 0.25: st.append(["zoom_region"])
+            if c < 0.15: st.append(["zoom_region"])
+            elif c < 0.25: st.append(["mask_zoom"])
             elif c < 0.45: st.append(["resize", [rng.randint(1, 6), rng.randint(1, 6)], rng.choice([0, 1, 1, 2])])
             elif c < 0.55: st.append(["coords", [h + 2 * rng.randint(-1, 2), w + 2 * rng.randint(-1, 2)]])
             elif c < 0.65: st.append(["trimarr", values(h, w, rng), [h - 2 * rng.randint(0, h // 2), w - 2 * rng.randint(0, w // 2)]])
@@ -216,7 +223,7 @@ def gen_inputs(tier, rng):
                 y, x = rng.randrange(h), rng.randrange(w)
                 cur[y][x] = not cur[y][x]
                 if all(all(r) for r in cur): cur[y][x] = False; continue          # keep one unmasked pixel
-                st.append(["edit", y, x]); st.append(["zoom_region"])
+                st.append(["edit", y, x]); st.append(rng.choice([["zoom_region"], ["mask_zoom"]]))
         st = [x for x in st if x[0] != "coords" or min(x[1]) >= 1]
         if not st or st[0][0] == "edit": st.insert(0, ["zoom_region"])
         if all(all(r) for r in mk): st = [x for x in st if x[0] != "edit"]
@@ -242,7 +249,10 @@ def gen_inputs(tier, rng):
         yield {"op": "enlarge_shrink", "a": a, "rs": [h + rng.randint(0, 5), w + rng.randint(0, 5)], "mpv": rng.randint(0, 1)}
         k = [rng.choice(ODD + [9]), rng.choice(ODD + [9])]
         yield {"op": "pad_trim", "a": a, "k": k, "mpv": rng.randint(0, 1)}
-        if not all(all(row) for row in a[1]): yield {"op": "zoom", "a": a, "b": rng.randint(0, 3)}
+        if not all(all(row) for row in a[1]):
+            yield {"op": "zoom", "a": a, "b": rng.randint(-2, 3)}
+            yield {"op": "zoom_geo", "m": a[1], "v": a[0], "g": list(rng.choice(GEOMS)), "b": rng.randint(-3, 3), "var": rng.choice(VARS)}
+            yield {"op": "mask_zoom", "m": a[1], "g": list(rng.choice(GEOMS))}
         r2 = [h + 2 * rng.randint(-2, 3), w + 2 * rng.randint(-2, 3)]
         yield {"op": "resize_coords", "m": a[1], "rs": r2, "g": list(rng.choice(GEOMS))}
 
@@ -295,6 +305,28 @@ def geom_kept(obj):
     return tuple(mask.pixel_scales) == (want[0], want[1]) and tuple(mask.origin) == (want[2], want[3])
 def parity(s, t): return "".join("e" if (x - y) % 2 == 0 else "o" for x, y in zip(s, t))
 
+def qgeom_of(mask):
+    return [fr(mask.pixel_scales[0]), fr(mask.pixel_scales[1]), fr(mask.origin[0]), fr(mask.origin[1])]
+def cshape_geom(o): return ctup([cpair(o[0]), cgeom(o[1])])
+def str_geom(o): return [o[0], [str(x) for x in o[1]]]
+def zoom_geo_obs(arr, b, bad):
+    """shape, pixel scales and origin of the mask of arr.zoomed_around_mask(buffer=b)"""
+    z = arr.zoomed_around_mask(buffer=b)
+    if np.array(z.mask).any(): bad.append("the zoomed array's mask is not all False")
+    if tuple(np.array(z.native).shape) != tuple(z.mask.shape_native): bad.append("zoomed array and its mask differ in shape")
+    return [[int(z.mask.shape_native[0]), int(z.mask.shape_native[1])], qgeom_of(z.mask)]
+def mask_zoom_obs(mask):
+    mc, zc, op, os_ = mask.mask_centre, mask.zoom_centre, mask.zoom_offset_pixels, mask.zoom_offset_scaled
+    zs, zm = mask.zoom_shape_native, mask.zoom_mask_unmasked
+    if tuple(int(v) for v in zs) != tuple(int(v) for v in zm.shape_native): raise ValueError("zoom_shape_native != shape of zoom_mask_unmasked")
+    if np.array(zm).any(): raise ValueError("zoom_mask_unmasked is not all False")
+    pq = lambda t: [fr(t[0]), fr(t[1])]
+    return [[pq(mc), pq(zc)], [pq(op), pq(os_)], [[int(zm.shape_native[0]), int(zm.shape_native[1])], qgeom_of(zm)]]
+def cmask_zoom(o):
+    return ctup([ctup([cqq(o[0][0]), cqq(o[0][1])]), ctup([cqq(o[1][0]), cqq(o[1][1])]), cshape_geom(o[2])])
+def str_mask_zoom(o):
+    return [[[str(x) for x in q] for q in o[0]], [[str(x) for x in q] for q in o[1]], str_geom(o[2])]
+
 def arr_step(aa, arr, st, sc, bad):
     """one observation on the Array2D `arr` (which the caller keeps): returns the converted result"""
     kind = st[0]
@@ -307,11 +339,14 @@ def arr_step(aa, arr, st, sc, bad):
         r = arr.resized_from(new_shape=tuple(st[1]), mask_pad_value=st[2]).resized_from(new_shape=tuple(arr.shape_native), mask_pad_value=st[2])
     elif kind == "zoom":
         return zout(np.array(arr.zoomed_around_mask(buffer=st[1]).native), sc)
+    elif kind == "zoomgeo":
+        return zoom_geo_obs(arr, st[1], bad)
     else: raise ValueError(kind)
     if not geom_kept(r): bad.append("pixel scales / origin not kept by " + kind)
     return a2out(r, sc)
-def arr_case(st, h, out):
+def arr_case(st, h, out, g=None):
     kind = st[0]
+    if kind == "zoomgeo": return f"KZoomGeo {cbarr(h[1])} {cgeom(g)} {cz(st[1])} {cres(out, cshape_geom)}"
     if kind == "resize": return f"KArrResize {ca2(h)} {cpair(st[1])} {cz(st[2])} {cres(out, ca2)}"
     if kind == "pad": return f"KArrPad {ca2(h)} {cpair(st[1])} {cz(st[2])} {cres(out, ca2)}"
     if kind == "trim": return f"KArrTrim {ca2(h)} {cpair(st[1])} {cres(out, ca2)}"
@@ -336,6 +371,10 @@ def mask_step(aa, mask, st, m, g, bad):
     if kind == "zoom_region":
         out = call_res(lambda: [int(v) for v in mask.zoom_region])
         return out, f"KZoomRegion {cbarr(m)} {cres(out, lambda r: ctup([cz(v) for v in r]))}"
+    if kind == "mask_zoom":
+        out = call_res(lambda: mask_zoom_obs(mask))
+        coq = f"KMaskZoom {cbarr(m)} {cgeom(g)} {cres(out, cmask_zoom)}"
+        return (("ok", str_mask_zoom(out[1])) if out[0] == "ok" else out), coq
     if kind == "trimarr":
         pv, ish = st[1], st[2]
         padded = aa.Array2D.no_mask(values=np.array(pv, dtype=float), pixel_scales=(0.25, 4.0), origin=(7.0, 9.0))
@@ -366,9 +405,12 @@ def img_obs(ds, sc, cfg):
         d = np.array(ds.data.slim); n = np.array(ds.noise_map.slim)
         if d.ndim != 1 or n.ndim != 1: raise ValueError(".slim is not one-dimensional")
     return [bout(mk), [to_int(v, sc) for v in d], [to_int(v, sc) for v in n], [[fr(p[0]), fr(p[1])] for p in grid]]
-def img_case(data, noise, m, k, g, out):
+def img_case(data, noise, m, k, g, out, chain=None):
     pr = lambda o: ctup([cbarr(o[0]), ctup([clist([cz(v) for v in o[1]]), clist([cz(v) for v in o[2]])]),
                          clist([cqq(p) for p in o[3]])])
+    if chain is not None:
+        return (f"KApplyChain {czarr(data)} {czarr(noise)} {cbarr(chain[0])} {cbarr(m)} {copt(k, cpair)} {cbool(chain[1])} "
+                f"{cgeom(g)} {cres(out, pr)}")
     return (f"KApplyMask {czarr(data)} {czarr(noise)} {cbarr(m)} {copt(k, cpair)} {cgeom(g)} {cres(out, pr)}")
 def img_str(out):
     return ("ok", [out[1][0], out[1][1], out[1][2], [[str(a), str(b)] for a, b in out[1][3]]]) if out[0] == "ok" else out
@@ -439,7 +481,8 @@ def run_case(inp):
                     a[0][y][x] = v; f0 = fp_arr(arr); continue
                 o = call_res(lambda: arr_step(aa, arr, st, sc, geom_bad))
                 if not fp_eq(f0, fp_arr(arr)): geom_bad.append("the Array2D was modified by " + st[0])
-                outs.append(o); cases.append("(" + arr_case(st, masked0(a), o) + ")")
+                cases.append("(" + arr_case(st, masked0(a), o, GEOM_CHK) + ")")
+                outs.append(("ok", str_geom(o[1])) if st[0] == "zoomgeo" and o[0] == "ok" else o)
         tally("hist_arr variant " + var)
         return {"coq": cases[0], "extra_coq": cases[1:], "out": outs, "py_ok": (False if geom_bad else None),
                 "detail": "; ".join(geom_bad) or None, "nontrivial": True, "kind": op}
@@ -467,14 +510,16 @@ def run_case(inp):
             ds = aa.Imaging(data=d0, noise_map=n0, psf=psf)
             fp = lambda: (fp_arr(ds.data), fp_arr(ds.noise_map), (np.array(psf.native).copy() if psf is not None else 0))
             f0 = fp(); last = None     # last = (dataset, base, content, allfalse, mask given): see below
+            fresh_last = False         # `last` came from ds.apply_mask and ds was not edited since: the chain is a model case too
             H, W = len(data), len(data[0])
             for st in inp["steps"]:
                 if st[0] == "edit":
                     y, x, v = st[1], st[2], st[3]
                     if ds.data.ndim == 2: ds.data[y, x] = v * 2.0 ** sc
                     else: ds.data[y * W + x] = v * 2.0 ** sc
-                    data[y][x] = v; f0 = fp(); continue
+                    data[y][x] = v; f0 = fp(); fresh_last = False; continue
                 mobj = mk_mask(aa, st[1], g); fm = fp_mask(mobj)
+                chain_case = None
                 # which data does the code mask?  apply_mask on the unmasked dataset `ds`: its current content.  On a masked
                 # dataset: its `.unmasked` (the LIVE object it was made from) -- unless its own mask is all False, then the
                 # dataset itself (a snapshot of the data at the time it was made) is taken as the unmasked one.
@@ -483,9 +528,11 @@ def run_case(inp):
                     lobj, lbase, lcontent, lallfalse, lmask = last
                     src = lobj
                     padded = tuple(lobj.mask.shape_native) != (H, W)
+                    trimmed = False
                     if st[0] == "trimchain" and k is not None and padded:            # only a padded dataset is trimmed back
                         src = lobj.trimmed_after_convolution_from(kernel_shape=tuple(k))
-                        lallfalse = not any(any(r) for r in lmask)
+                        lallfalse = not any(any(r) for r in lmask); trimmed = True
+                    if fresh_last: chain_case = (lmask, trimmed)
                     base = lcontent if lallfalse else lbase
                 content = [list(r) for r in (data if base == "live" else base)]
                 def f():
@@ -500,6 +547,10 @@ def run_case(inp):
                     geom_bad.append("apply_mask modified the unmasked dataset (" + st[0] + ")")
                 if not fp_eq(fm, fp_mask(mobj)): geom_bad.append("apply_mask modified the mask it was given")
                 outs.append(img_str(o)); cases.append("(" + img_case(content, noise, st[1], k, g, o) + ")")
+                if chain_case is not None:
+                    cases.append("(" + img_case(content, noise, st[1], k, g, o, chain_case) + ")")
+                    tally("hist_img chain case" + (" after trim" if chain_case[1] else ""))
+                fresh_last = st[0] == "mask" and o[0] == "ok"
         tally("hist_img data variant " + dv)
         return {"coq": cases[0], "extra_coq": cases[1:], "out": outs, "py_ok": (False if geom_bad else None),
                 "detail": "; ".join(geom_bad) or None, "nontrivial": True, "kind": op}
@@ -522,6 +573,18 @@ def run_case(inp):
             return zout(np.array(padded.mask.trimmed_array_from(padded_array=padded, image_shape=arr.shape_native).native), sc)
         with cfg_native(var == "cfg"): out = call_res(f)
         coq = f"KPadTrimArr {ca2(masked0(inp['a']))} {cpair(inp['k'])} {cres(out, czarr)}"
+    elif op == "zoom_geo":
+        with cfg_native(var == "cfg"):
+            arr = mk_arr(aa, [inp["v"], inp["m"]], inp["g"], var, sc); f0 = fp_arr(arr)
+            out = call_res(lambda: zoom_geo_obs(arr, inp["b"], geom_bad))
+            if not fp_eq(f0, fp_arr(arr)): geom_bad.append("the Array2D was modified by zoomed_around_mask")
+        tally("zoom_geo buffer %d" % inp["b"])
+        coq = f"KZoomGeo {cbarr(inp['m'])} {cgeom(inp['g'])} {cz(inp['b'])} {cres(out, cshape_geom)}"
+        if out[0] == "ok": out = ("ok", str_geom(out[1]))
+    elif op == "mask_zoom":
+        mask = mk_mask(aa, inp["m"], inp["g"]); f0 = fp_mask(mask)
+        out, coq = mask_step(aa, mask, ["mask_zoom"], inp["m"], inp["g"], geom_bad)
+        if not fp_eq(f0, fp_mask(mask)): geom_bad.append("the Mask2D was modified by its zoom properties")
     elif op == "zoom_region":
         out, coq = mask_step(aa, mk_mask(aa, inp["m"]), ["zoom_region"], inp["m"], None, geom_bad)
     elif op == "apply_mask":
